@@ -47,6 +47,15 @@ func runK10(c *core.Ctx) {
 		if tg.ip != "" {
 			IP = regOf(p, tg.rel, tg.ip)
 		}
+		// registers that hold a Go pointer throughout (the encoder's value / auxiliary pointers)
+		always := map[string]string{}
+		if tg.rel == "internal/encoder/x86" {
+			for _, nm := range []string{"_SP_p", "_SP_q"} {
+				if r := regOf(p, tg.rel, nm); r != "" {
+					always[r] = "state pointer " + nm
+				}
+			}
+		}
 		for _, fd := range sortedFuncDecls(a.methods()) {
 			if tg.only != nil && !tg.only[fd.Name.Name] {
 				continue
@@ -189,6 +198,9 @@ func runK10(c *core.Ctx) {
 						continue
 					}
 					why := in[i][src.Reg]
+					if why == "" {
+						why = always[src.Reg]
+					}
 					if why == "" {
 						continue
 					}
